@@ -5,7 +5,7 @@ import engine as E
 
 def run_table(prop, tier, seed, work, module, mc_cfgs, gen_module, gen_cfg, trace_module, trace_cfg,
               sig_fn, distinct_fn, env=None, guard_prefixes=None, harness_prop=None, confirm_env=None,
-              post=None, binary=None, extra_cases=None, timeout=1500):
+              post=None, binary=None, extra_cases=None, timeout=1500, sig_full=None):
     res = E.Result(prop, tier, seed)
     cov = res.cov
     binary = binary or E.build_harness(work)
@@ -65,7 +65,7 @@ def run_table(prop, tier, seed, work, module, mc_cfgs, gen_module, gen_cfg, trac
                 res.notes.append("deviation at row %d (%s) did not reproduce; ignored" % (d["line"], guards))
                 continue
             sig = {"action": d["ev"], "guards": guards}
-            sig.update(sig_fn(ev))
+            sig.update(sig_full(ev, guards) if sig_full else sig_fn(ev))
             if res.classify(sig, ev, known) == "violation":
                 res.sample({"deviation": d, "event": ev})
     if post:
